@@ -980,7 +980,8 @@ def r_thresholds(ctx):
         unit = ctx.unit(b)
         # R09.1 everything in here happens only for relaxed or exact diagrams
         pts = [pt for (pt, d, v, s) in writes(b) if node_field(d, 'theta') is not None]
-        muc = b.calls_to('_maybe_update_cache')
+        # (_maybe_update_cache is a soft anchor: it is inlined into _compute_thresholds on every tree, the rules speak of its effect)
+        muc = b.calls_to('Cache::update_threshold')
         pts += [b.term_point(bb) for (bb, t) in muc]
         pts += [b.term_point(bb) for (bb, t) in b.calls_to('call_mut')]
         if ctx.floor('R09.1', tag + '/anchors', b, len(pts), 6, 'theta writes / cache updates in _compute_thresholds'):
@@ -990,12 +991,9 @@ def r_thresholds(ctx):
         # who calls update_threshold / _maybe_update_cache
         for body in dd_unit(ctx, tag):
             for (bb, t) in body.calls_to('Cache::update_threshold'):
-                ctx.check(body.fn_name == '_maybe_update_cache' and body.kind != 'closure', 'R09.1', '%s/who-updates-cache/%s' % (tag, short(body)), body, body.loc(bb),
-                          'the cache is written by _maybe_update_cache only', 'Cache::update_threshold is called from %s' % body.name)
-            for (bb, t) in body.calls_to('_maybe_update_cache'):
-                ctx.check(body is b, 'R09.1', '%s/who-calls-maybe_update_cache/%s' % (tag, short(body)), body, body.loc(bb), '_maybe_update_cache is called from _compute_thresholds only',
-                          '_maybe_update_cache is called from %s' % body.name)
-        ctx.floor('R09.1', tag + '/cache-update-call', b, len(muc), 1, '_maybe_update_cache call')
+                ctx.check(body is b, 'R09.1', '%s/who-updates-cache/%s' % (tag, short(body)), body, body.loc(bb),
+                          'the cache is written by _compute_thresholds only (directly or through its private helper)', 'Cache::update_threshold is called from %s' % body.name)
+        ctx.floor('R09.1', tag + '/cache-update-call', b, len(muc), 1, 'Cache::update_threshold call in _compute_thresholds')
         # R09.5 closed list of theta writes in this unit
         for body in unit:
             for (pt, d, v, s) in writes(body):
@@ -1151,22 +1149,23 @@ def r_thresholds(ctx):
             ctx.check(bool(paths_) and bool(tw) and not bad_ and len(consts_) == 2, 'R09.5', tag + '/terminal-theta-table', b, b.loc(nbb),
                       'a terminal node receives theta = best_known exactly when (LEL cut-set and exact diagram) or (frontier cut-set and exact node) (%d cases)' % (4 * len(kinds)),
                       'terminal thresholds deviate from the table in case(s) %s: an exact terminal that is skipped gets theta = MAX as a dangling node and a better arrival at that state is pruned for ever' % bad_[:3])
-        # R09.2 _maybe_update_cache
-        mb = ctx.body(adt, '_maybe_update_cache')
+        # R09.2 the cache entry written for a node (the helper _maybe_update_cache is inlined: `node` is nodes[IDX] of the bottom-up loop)
+        mb = b
         ut = mb.calls_to('Cache::update_threshold')
         if ctx.floor('R09.2', tag + '/update_threshold', mb, len(ut), 1, 'update_threshold call'):
             (bb, t) = ut[0]
             a = [mb.origin.operand(x, mb.term_point(bb)) for x in t['args']]
-            ni_ = param_index_by_type(mb, '::Node<')
-            node = lambda x, f: M.is_field(x, f, '::Node') and M.is_param(x[1], index=ni_) and x[1][1] == mb.name
+            ni_ = node_field(a[1], 'state')
+            node = lambda x, f: ni_ is not None and node_field(x, f) == ni_
             ok, cut, bad = M.guarded(mb, [mb.term_point(bb)], lambda atoms, lit: any(a_[0] == 'T' and M.is_call(a_[1], 'is_above_cutset') and node(a_[1][2][0], 'flags') for a_ in atoms))
             ctx.check(ok, 'R09.2', tag + '/only-above-cutset', mb, mb.loc(bb), 'only nodes at or above the cut-set are written to the cache', 'a node below the cut-set can be written to the cache')
-            good = node(a[1], 'state') and node(a[2], 'depth') and M.is_field(a[3], '0') and a[3][1][0] == 'variant' and a[3][1][2] == 'Some' and node(a[3][1][1], 'theta') and \
+            th_ = a[3]
+            th_ok = M.is_field(th_, '0') and isinstance(th_[1], tuple) and th_[1][0] == 'variant' and th_[1][2] == 'Some' and node(th_[1][1], 'theta')
+            good = node(a[1], 'state') and node(a[2], 'depth') and th_ok and \
                 isinstance(a[4], tuple) and a[4][0] == 'not' and M.is_call(a[4][1], 'is_cutset') and node(a[4][1][2][0], 'flags')
             ctx.check(good, 'R09.2', tag + '/cache-entry', mb, mb.loc(bb), 'cache entry = (state, depth, theta, explored = !is_cutset) of one node',
                       'update_threshold receives (%s)' % ', '.join(M.show(x) for x in a[1:]))
-            rcv_ = [a[0]] if not M.is_param(a[0]) else param_at_call_sites(ctx, mb, a[0])      # the cache may be handed down by the caller
-            ctx.check(bool(rcv_) and all(M.is_field(x, 'cache', 'CompilationInput') for x in rcv_), 'R09.2', tag + '/cache-receiver', mb, mb.loc(bb), 'the cache written is input.cache', 'cache receiver is %s' % M.show(a[0]))
+            ctx.check(M.is_field(a[0], 'cache', 'CompilationInput'), 'R09.2', tag + '/cache-receiver', mb, mb.loc(bb), 'the cache written is input.cache', 'cache receiver is %s' % M.show(a[0]))
 
 
 def _list_walk_child(parent, edge_term):
